@@ -138,6 +138,12 @@ def r3(ctx, rep):
             break
     ok = [c for c, _ in chain] == ["num_str.parse()", "num_str.parse()", None] or (len(chain) == 3 and chain[0][1] == "Literal::Integer(i)" and chain[1][1] == "Literal::Float(f)")
     rep.check(ok, "decimal:order", f"decimal literals must be tried as i64 first, then f64; found {chain}", file=nf["file"], line=nf["l"], fn=nf["path"])
+    # an all-digit literal beyond i64 falls through to the f64 branch and is rounded
+    if len(chain) >= 2:
+        c1 = chain[1][0] or ""
+        guarded = any(w in c1 for w in ("contains", "frac", "exp", "is_some"))
+        rep.check(guarded, "decimal:int-overflow-to-float", "the f64 branch of the decimal parser is taken for ANY text that fails i64 parsing, including all-digit literals beyond i64::MAX: "
+                  "`9223372036854775808` silently becomes the float 9.223372036854776e18 instead of an error", file=nf["file"], line=nf["l"], fn=nf["path"])
     # value_and_unit: fallback 1 on overflow is reachable (digits are unbounded)
     vu = syn.fn("lexer::value_and_unit", crate="prqlc_parser")
     fb = [n for n in walk(vu["body"]) if n.get("k") == "mcall" and n["m"] in ("unwrap_or", "unwrap_or_default") and "parse" in show(n["r"], maxdepth=8)]
@@ -279,6 +285,129 @@ def r6(ctx, rep):
     rep.check(n_sites >= 5, "sites", f"expected >= 5 Value::Number construction sites under sql/, found {n_sites}")
 
 
+ESCAPES = {"\\": "\\", "/": "/", "b": "\x08", "f": "\x0c", "n": "\n", "r": "\r", "t": "\t"}   # documented single-character escapes (book: Strings)
+INT_BITS = {"i64": 63, "u64": 64, "i32": 31, "u32": 32, "i16": 15, "u16": 16, "i8": 7, "u8": 8, "i128": 127, "u128": 128, "isize": 63, "usize": 64}
+
+
+def flat_names(p):
+    """identifier names bound by a (nested) tuple pattern, in source order"""
+    if p is None:
+        return []
+    if p.get("k") == "p_ident":
+        return [p["n"]]
+    if p.get("k") in ("p_tuple", "p_ts"):
+        out = []
+        for e in p["e"]:
+            out += flat_names(e)
+        return out
+    return []
+
+
+def fmt_pieces(m):
+    """(ordered names printed by a format! macro, literal text between placeholders) or None if not analysable"""
+    if not m["a"] or not isinstance(lit_val(m["a"][0]), str):
+        return None
+    f = lit_val(m["a"][0])
+    pos = [show(a) for a in m["a"][1:]]
+    names, text, i, k = [], "", 0, 0
+    while i < len(f):
+        if f[i] == "{":
+            j = f.index("}", i)
+            inner = f[i + 1:j].split(":")[0]
+            if inner == "":
+                if k >= len(pos):
+                    return None
+                names.append(pos[k])
+                k += 1
+            else:
+                names.append(inner)
+            i = j + 1
+        else:
+            text += f[i]
+            i += 1
+    return names, text
+
+
+def r7(ctx, rep):
+    rep.rule("C08.R7", "escape table, based-number width, date/time re-assembly order, CSV reader defaults", floor=14)
+    syn = ctx.syn
+    # (a) single-character escapes against the documented table
+    f = syn.fn("lexer::parse_escape_sequence", crate="prqlc_parser")
+    got = {}
+    for m in matches_of(f["body"]):
+        if show(m["e"]) != "next_ch":
+            continue
+        for arm in m["arms"]:
+            if arm["pat"].get("k") == "lit" and arm["pat"].get("t") == "char" and arm.get("guard") is None and arm["body"].get("k") == "lit":
+                got[arm["pat"]["v"]] = arm["body"]["v"]
+    for esc, want in ESCAPES.items():
+        rep.check(got.get(esc) == want, f"escape:{esc!r}", f"`\\{esc}` must denote {want!r} (U+{ord(want):04X}); the lexer's table gives {got.get(esc)!r}", file=f["file"], line=f["l"], fn=f["path"])
+    for esc in sorted(set(got) - set(ESCAPES)):
+        rep.bad(f"escape:{esc!r}", f"`\\{esc}` -> {got[esc]!r} is not a documented escape", file=f["file"], line=f["l"], fn=f["path"])
+    # (b) based numbers are parsed at the width of Literal::Integer and never narrowed
+    pb = syn.fn("lexer::parse_number_with_base", crate="prqlc_parser")
+    radix = [n for n in walk(pb["body"]) if n.get("k") == "call" and last_seg(show(n["f"])) == "from_str_radix"]
+    rep.check(len(radix) == 1, "radix:site", f"expected one from_str_radix call in parse_number_with_base, found {len(radix)}", file=pb["file"], line=pb["l"], fn=pb["path"])
+    for c in radix:
+        ty = show(c["f"]).split("::")[0]
+        bits = INT_BITS.get(ty)
+        need = 0
+        for name in ("binary_number", "hexadecimal_number", "octal_number"):
+            g = syn.fn("lexer::" + name, crate="prqlc_parser")
+            for cc in walk(g["body"]):
+                if cc.get("k") == "call" and last_seg(show(cc["f"])) == "parse_number_with_base":
+                    base, maxd = lit_val(cc["a"][1]), lit_val(cc["a"][2])
+                    if isinstance(base, int) and isinstance(maxd, int) and base > 1:
+                        need = max(need, maxd * math.log2(base))
+        rep.check(bits is not None and need <= bits and ty == "i64", "radix:width",
+                  f"based literals admit up to {need:.0f} bits but are parsed with `{ty}::from_str_radix` ({bits} bits): a longer literal fails to parse and the fallback silently yields 0 "
+                  "(Literal::Integer holds an i64, so i64 is the parse type)", file=pb["file"], line=c["l"], fn=pb["path"])
+    # (c) date/time pieces are re-assembled in the order they were captured, with nothing added
+    n_fmt = 0
+    for name in ("time_inner", "date_token"):
+        g = syn.fn("lexer::" + name, crate="prqlc_parser")
+        for cl in walk(g["body"]):
+            if cl.get("k") != "closure":
+                continue
+            fm = [m for m in walk(cl["body"]) if m.get("k") == "macro" and m["n"] == "format"]
+            inner_closures = [c for c in walk(cl["body"]) if c.get("k") == "closure" and c is not cl]
+            if not fm or inner_closures:
+                continue
+            bound = [n for p in cl["params"] for n in flat_names(p) if not n.startswith("_")]
+            for m in fm:
+                n_fmt += 1
+                fp = fmt_pieces(m)
+                key = f"reassemble:{name}:{'+'.join(bound)}"
+                if fp is None:
+                    rep.bad(key, f"`{show(m, maxdepth=4)}` cannot be analysed", file=g["file"], line=m["l"], fn=g["path"])
+                    continue
+                names, text = fp
+                rep.check(names == bound and text == "", key,
+                          f"the pieces captured as ({', '.join(bound)}) are printed as ({', '.join(names)}) with literal text {text!r}: the literal's text must be the concatenation of its pieces in source order",
+                          file=g["file"], line=m["l"], fn=g["path"])
+    rep.check(n_fmt >= 5, "reassemble:sites", f"expected >= 5 format! re-assembly closures in the date/time lexer, found {n_fmt}")
+    # (d) relation literals: the CSV reader is used with its defaults (no comment char, trimming, custom quoting ...)
+    n_csv = 0
+    allowed = {"new", "from_reader", "default"}
+    for fid, fn_ in ctx.cg.fns.items():
+        if fn_["crate"] != "prqlc":
+            continue
+        for r in fn_["refs"]:
+            if r["kind"] != "call" or r.get("crate") != "csv":
+                continue
+            d = r.get("def") or ""
+            if "ReaderBuilder" in d:
+                meth = last_seg(d.split("<")[0]) if "::" in d else d
+                meth = d.split("::")[-1]
+                n_csv += 1
+                rep.check(meth in allowed, f"csv:ReaderBuilder::{meth}", f"from_text CSV is read with `ReaderBuilder::{meth}(..)`: only the default reader configuration keeps every cell as written "
+                          "(a comment character drops rows, trimming and quoting options change cell text)", file=r["file"], line=r["l"], fn=ctx.cg.owner_fn(fid)["path"])
+            elif "Reader" in d and d.split("::")[-1] == "from_reader":
+                n_csv += 1
+                rep.ok("csv:Reader::from_reader")
+    rep.check(n_csv >= 1, "csv:sites", f"expected the from_text CSV reader construction in prqlc, found {n_csv} call(s) into the csv crate's reader constructors")
+
+
 def run(ctx, rep):
-    for r in (r1, r2, r3, r4, r5, r6):
+    for r in (r1, r2, r3, r4, r5, r6, r7):
         rep.guard(r, ctx)
